@@ -18,7 +18,7 @@ python3 tools/gen_tables.py "$REPO" coq/gen/Tables.v 2>build/translator.err || {
 # no Source.v: gen/Source.vo and what depends on it (proofs/Source*.v and the property files
 # that use them) fail below, everything else still builds (make -k, exit 3 = partial build)
 python3 tools/gen_source.py "$REPO" coq/gen/Source.v 2>build/translator_source.err || cat build/translator_source.err >&2
-python3 tools/gen_source_heap.py "$REPO" coq/gen/SourceHeap.v coq/gen/SourceHeapViews.v 2>>build/translator_source.err || cat build/translator_source.err >&2
+python3 tools/gen_source_heap.py "$REPO" coq/gen/SourceHeap.v coq/gen/SourceHeapViews.v coq/gen/SourceHeapRuns.v 2>>build/translator_source.err || cat build/translator_source.err >&2
 cd coq
 if [ ! -f Makefile.coq ] || [ _CoqProject -nt Makefile.coq ]; then
   coq_makefile -f _CoqProject -o Makefile.coq >/dev/null 2>&1 || exit 3
